@@ -6,7 +6,7 @@ from .. import common as C
 from .. import gram, batch
 
 HOSTILE_LITS = ["\\", "\\\\", "a\"b", "`", "a`b", "'", "a b", "é✓", "\U0001F600", "*/", "/*", "//", "%s", "%d%%", "{{.}}", "{{", "<<", ">>", "\t", "x\\n", "\"\"", "package", "func",
-                "\\x", "$0", "`+`", "\r"]
+                "\\x", "$0", "`+`", "\r", "x\ufeffy", "\u2028", "\x7f", "\u00a0"]
 FLAGSETS = [[], ["-a"], ["-a", "-zip"], ["-a", "-no_lexer"], ["-a", "-debug_lexer", "-debug_parser"], ["-a", "-v"], ["-a", "-zip", "-v", "-debug_parser", "-no_lexer"],
             ["-a", "-o", "sub/dir"], ["-a", "-p", "ws/custom/pkg"], ["-a", "-o", "deep/er/out", "-zip"]]
 
